@@ -503,6 +503,14 @@ func leaseResize(r *rng) leaseScn {
 		}
 		s.insts = append(s.insts, in)
 	}
+	// every lease call slow: the loop is nearly always inside one, so a resize lands while a request for a partition
+	// that is about to disappear is in flight
+	inFlight := r.chance(1, 3)
+	if inFlight {
+		for i := range s.insts {
+			s.insts[i].pre, s.insts[i].post = []int64{int64(r.pick(1500, 2500)) * ms}, []int64{int64(r.pick(0, 500)) * ms}
+		}
+	}
 	t := int64(0)
 	for i := 0; i < ni; i++ {
 		s.script = append(s.script, histAct{t: t, act: fmt.Sprintf("S%d", i)})
@@ -513,6 +521,14 @@ func leaseResize(r *rng) leaseScn {
 		t += ms
 	}
 	rounds := 1 + r.intn(3)
+	if inFlight {
+		// shrink (often to nothing) early, while the first partitions are still being requested
+		i := r.intn(ni)
+		t += int64(r.pick(700, 1800, 3100)) * ms
+		s.script = append(s.script, histAct{t: t, act: fmt.Sprintf("c%d:%d", i, uint32(r.pick(0, 0, 1))*feff)})
+		t += int64(r.pick(4000, 9000)) * ms
+		s.script = append(s.script, histAct{t: t, act: "s"})
+	}
 	for k := 0; k < rounds; k++ {
 		i := r.intn(ni)
 		t += int64(r.pick(2000, 4000, 8000)) * ms
